@@ -97,4 +97,27 @@ theorem div_nonzero_no_divzero (a b : Int) (hb : b ≠ 0) :
   · simp only [evalBin, beq_iff_eq, hb, ↓reduceIte, checkI64]; split <;> simp
   · simp only [evalBin, beq_iff_eq, hb, ↓reduceIte, checkI64]; split <;> (try split) <;> simp
 
+/-- **Assignment operands, left to right.**  In `lv = e` the index expressions of the target are evaluated
+    before `e`: when the target fails (say an index out of bounds), `e` is never evaluated — result and
+    state are those after the target alone -/
+theorem assign_target_before_rhs (p : Prog) (fuel : Nat) (lv e : Expr) (s s' : St) (k : ErrKind)
+    (h : evalLV p fuel lv s = (.err k, s')) :
+    execS p (fuel + 1) (.assign lv e) s = (.err k, s') := by
+  unfold execS
+  show (M.bind (evalLV p fuel lv) _) s = _
+  unfold M.bind
+  rw [h]
+
+/-- ... and when the target is fine, the right-hand side is evaluated next, in the state the target left -/
+theorem assign_rhs_after_target (p : Prog) (fuel : Nat) (lv e : Expr) (s s1 s2 : St) (r : LRef) (v : Int)
+    (h1 : evalLV p fuel lv s = (.ok r, s1)) (h2 : evalE p fuel e s1 = (.ok v, s2)) :
+    execS p (fuel + 1) (.assign lv e) s = writeRef r v s2 := by
+  unfold execS
+  show (M.bind (evalLV p fuel lv) _) s = _
+  unfold M.bind
+  rw [h1]
+  show (M.bind (evalE p fuel e) _) s1 = _
+  unfold M.bind
+  rw [h2]
+
 end CbProps.C03
